@@ -208,7 +208,8 @@ fn q(rng: &mut Rng) -> &'static str { if rng.chance(1, 4) { "y" } else { "n" } }
 const CK_KINDS: &[(&str, &[(&str, &str)])] = &[("CkA", &[("a", "str")]), ("CkAB", &[("a", "str"), ("b", "str")]), ("CkBA", &[("b", "str"), ("a", "str")]),
     ("CkOpt", &[("a", "str"), ("o", "optstr")]), ("CkRen", &[("x-y", "str"), ("$t!", "str")]), ("CkNum", &[("n", "u32"), ("a", "str")])];
 pub fn gen(rng: &mut Rng, _i: usize) -> Value {
-    match rng.below(10) {
+    let big_turn = _i % 1500 == 7;      // (judging a line of 4 KiB byte by byte inside TLC takes a minute: a few per run)
+    match if big_turn { 9 } else { rng.below(10) } {
         0..=3 => {
             if rng.chance(1, 5) {
                 let n = rng.range(1, 4);
@@ -239,7 +240,9 @@ pub fn gen(rng: &mut Rng, _i: usize) -> Value {
             let n = rng.range(1, 3);
             let cookies: Vec<Value> = (0..n).map(|_| {
                 let name: Vec<Value> = (0..rng.range(1, 6)).map(|_| json!(if rng.chance(2, 3) { "al" } else { "tp" })).collect();
-                let value: Vec<Value> = (0..rng.below(10)).map(|_| json!(rnd_vclass(rng))).collect();
+                // (one cookie in sixty is big: its Set-Cookie line is longer than the 4096 bytes some clients stop at -- the builder has no business dropping it)
+                let nv = if big_turn { rng.range(470, 520) } else { rng.below(10) };
+                let value: Vec<Value> = (0..nv).map(|k| json!(if nv > 100 { if k % 50 == 0 { "al" } else { "u3" } } else { rnd_vclass(rng) })).collect();
                 json!({"n": name, "v": value, "d": {
                     "expires": *rng.pick(&["none", "date"]), "maxage": *rng.pick(&["none", "0", "1", "max", "86400", "9223372036854775808"]),
                     "domain": *rng.pick(&["none", "ex.com", "a.b-c.example"]), "path": *rng.pick(&["none", "/", "/a b", "/x/y=z,w"]),
